@@ -69,6 +69,18 @@ Theorem C05_normalize_power_complex :
 Proof. exact normalize_power_CS. Qed.
 Print Assumptions C05_normalize_power_complex.
 
+(* the power normaliser as a caller sees it: the result is finite (no inf / nan sample) exactly when the array has
+   non-zero power and the target is not negative; it is then array * sqrt(p / sum|array|^2) and has power p.
+   ([normalize_power_checked] returns None for the calls numpy answers with inf / nan and a RuntimeWarning.) *)
+Theorem C05_normalize_power_finite_iff :
+  forall (a : arr RS) (p : Qc),
+  let is0 := fun x : R => if Req_EM_T x 0 then true else false in
+  (forall b, @normalize_power_checked RS sqrt Rinv is0 a p = Some b ->
+             @power RS a <> 0%R /\ (0 <= Q2R p)%R /\ b = @normalize_power RS sqrt Rinv a (Q2R p) /\ @power RS b = Q2R p)
+  /\ (@normalize_power_checked RS sqrt Rinv is0 a p = None <-> @power RS a = 0%R \/ (Q2R p < 0)%R).
+Proof. exact normalize_power_checked_RS. Qed.
+Print Assumptions C05_normalize_power_finite_iff.
+
 (* ... and therefore images to total p: normalised amplitude, any OPD phase (in turns), one full period *)
 Theorem C05_normalized_amplitude_images_to_p :
   forall (sq : Qc -> C), (forall q : Qc, (0 <= q)%Qc -> Cmult (sq q) (sq q) = RtoC (Q2R q)) ->
@@ -81,6 +93,22 @@ Theorem C05_normalized_amplitude_images_to_p :
   = RtoC p.
 Proof. exact (fun sq H a p phase Pr Pc offr offc => normalized_images_to_p sq a p phase Pr Pc offr offc H). Qed.
 Print Assumptions C05_normalized_amplitude_images_to_p.
+
+(* both outcomes of the normaliser are reached: an all-zero array and a negative target are not finite *)
+Example C05_normalize_power_nonvacuous :
+  let is0 := fun x : R => if Req_EM_T x 0 then true else false in
+  @normalize_power_checked RS sqrt Rinv is0 (mkArr (S:=RS) 2 2 (fun _ _ => 0%R)) 1%Qc = None
+  /\ @normalize_power_checked RS sqrt Rinv is0 (mkArr (S:=RS) 1 1 (fun _ _ => 1%R)) (- (1))%Qc = None
+  /\ exists b, @normalize_power_checked RS sqrt Rinv is0 (mkArr (S:=RS) 1 1 (fun _ _ => 2%R)) 1%Qc = Some b.
+Proof.
+  cbn zeta. split; [|split].
+  - apply (proj2 (normalize_power_checked_RS _ _)). left. apply power_RS_zero.
+  - apply (proj2 (normalize_power_checked_RS _ _)). right. rewrite Q2R_Qc_opp, Q2R_Qc_1. lra.
+  - destruct (@normalize_power_checked RS sqrt Rinv _ (mkArr (S:=RS) 1 1 (fun _ _ => 2%R)) 1%Qc) as [b|] eqn:E; [eauto|].
+    exfalso. apply (proj2 (normalize_power_checked_RS _ _)) in E. destruct E as [E|E].
+    + rewrite power_RS_one in E. lra.
+    + rewrite Q2R_Qc_1 in E. lra.
+Qed.
 
 (* the hypotheses are met by a concrete non-trivial instance: a 2x3 complex pupil, period 4x6 *)
 Example C05_nonvacuous :
